@@ -5,6 +5,7 @@
 package codec
 
 import (
+	"bufio"
 	"encoding/hex"
 	"encoding/json"
 	"fmt"
@@ -692,4 +693,24 @@ func (g *Gen) Split(b []byte) enc.Wire {
 	}
 	w = append(w, append([]byte{}, b[prev:]...))
 	return w
+}
+
+// emitEW: for a nocopy model, the wire as returned by Encode (buffer boundaries) and Init's wirePlan, with the value
+// printed with the segmentation of its wire fields.
+func (e *Entry) emitEW(w *bufio.Writer, p reflect.Value, er EncResult) {
+	if !e.M.NoCopy {
+		return
+	}
+	dumpSegs = true
+	vsegs := e.DumpStruct(p)
+	dumpSegs = false
+	plan := make([]string, len(er.Plan))
+	for i, x := range er.Plan {
+		plan[i] = strconv.FormatUint(x, 10)
+	}
+	ps := "-"
+	if len(plan) > 0 {
+		ps = strings.Join(plan, ",")
+	}
+	fmt.Fprintf(w, "EW %d %d %s %s %s\n", e.Pi, e.Mi, vsegs, segsStr(er.Wire), ps)
 }
